@@ -18,14 +18,14 @@ find $MH -name Cargo.toml -exec sed -i "s#/repo/#$WT/#g" {} +
 rc=0
 for ID in "$@"; do
   case $ID in
-    C12|M7|M6|M4|M13)
+    C12|M7|M6|M4|M13|M2)
       out=$(cd /verif && VERIF_REPO=$WT VERIF_LOOM_TARGET=$MH/target-loom python3 - "$ID" "$TIER" <<'PY'
 import sys, json
 sys.path.insert(0, '/verif/tools')
 import loomrun
 pid, tier = sys.argv[1], sys.argv[2]
-models = loomrun.MODELS_C13 if pid == 'M13' else loomrun.MODELS_C07 if pid == 'M7' else (loomrun.MODELS_C06 if pid == 'M6' else (loomrun.MODELS_C04 if pid == 'M4' else None))
-raw = loomrun.run({'M7': 'C07', 'M6': 'C06', 'M4': 'C04', 'M13': 'C13'}.get(pid, 'C12'), tier, None, '/tmp', models=models)
+models = loomrun.MODELS_C02 if pid == 'M2' else loomrun.MODELS_C13 if pid == 'M13' else loomrun.MODELS_C07 if pid == 'M7' else (loomrun.MODELS_C06 if pid == 'M6' else (loomrun.MODELS_C04 if pid == 'M4' else None))
+raw = loomrun.run({'M7': 'C07', 'M6': 'C06', 'M4': 'C04', 'M13': 'C13', 'M2': 'C02'}.get(pid, 'C12'), tier, None, '/tmp', models=models)
 print(json.dumps({"machinery_error": raw.get("machinery_error"), "violations": raw.get("violations", []), "evaluations": raw.get("evaluations")}))
 PY
 )
